@@ -121,7 +121,14 @@ def impl(case):
     import bibtexparser
     if case.get("d"):
         lib2 = bibtexparser.parse_string(case["t"])
-        return C.ok(B.enc_blocks(lib2.blocks, prev=False))
+        res = C.ok(B.enc_blocks(lib2.blocks, prev=False))
+        # the same stack built with allow_inplace_modification=False (every block is copied on its way): same blocks,
+        # same wrappers, and every wrapper still exposes its first block
+        from bibtexparser.middlewares.parsestack import default_parse_stack
+        lib3 = bibtexparser.parse_string(case["t"], parse_stack=default_parse_stack(allow_inplace_modification=False))
+        if C.ok(B.enc_blocks(lib3.blocks, prev=False)) != res:
+            return res + " copy-mode-default-stack-differs"
+        return res
     lib = bibtexparser.parse_string(case["t"], parse_stack=[])
     res = C.ok(B.enc_blocks(lib.blocks))
     lib2 = bibtexparser.parse_string(case["t"])
@@ -136,8 +143,10 @@ def oracle(case):
     from bibtexparser import model as M
     text = case["t"]
     src = C.raw_split(text)                       # blocks before Library.add
-    for stack in ([], None):
-        lib = bibtexparser.parse_string(text, parse_stack=stack)
+    from bibtexparser.middlewares.parsestack import default_parse_stack
+    for stack in ([], None, "default stack in copy mode"):
+        lib = bibtexparser.parse_string(text, parse_stack=default_parse_stack(allow_inplace_modification=False)
+                                        if isinstance(stack, str) else stack)
         got = lib.blocks
         if len(got) != len(src):
             return "%d source blocks but %d returned (stack=%r)" % (len(src), len(got), stack)
@@ -155,8 +164,16 @@ def oracle(case):
                 else:
                     if not isinstance(g, M.DuplicateBlockKeyBlock):
                         return "later block with key %r at %d was not flagged: %r" % (s.key, i, type(g).__name__)
-                    if g.key != s.key or g.previous_block is not got[idx[s.key]]:
-                        return "duplicate wrapper at %d does not expose key / first block" % i
+                    fb, pb = got[idx[s.key]], g.previous_block
+                    if isinstance(stack, str):
+                        # copy mode copies block by block: the wrapper exposes a copy of the first block (same class,
+                        # key, position and raw text), not the object held by the library
+                        exposes = (pb is not None and type(pb) is type(fb) and pb.key == fb.key
+                                   and pb.start_line == fb.start_line and pb.raw == fb.raw)
+                    else:
+                        exposes = pb is fb
+                    if g.key != s.key or not exposes:
+                        return "duplicate wrapper at %d does not expose key / first block (stack=%r)" % (i, stack)
                     d = g.ignore_error_block
                     if type(d) is not type(s) or d.key != s.key or (isinstance(s, M.Entry) and [f.key for f in d.fields] != [f.key for f in s.fields]):
                         return "duplicate wrapper at %d does not hold the complete duplicate" % i
